@@ -2,6 +2,7 @@ import PytmeModel.Model.C02
 import PytmeModel.Extracted.C02
 import PytmeModel.Props.C01
 import PytmeModel.Props.C04
+import PytmeModel.Props.C14
 import Mathlib.Tactic.Ring
 import Mathlib.Tactic.Linarith
 
@@ -274,7 +275,92 @@ theorem tiled_eq_unsplit_interior {α} [CommSemiring α] (pad : Bool) (nsT nsU m
   intro k hk
   rw [hwin k hk]
 
+/-! ### where the content hypotheses come from: C14's tile extraction -/
+
+/-- the volume extended by a single mirror reflection about its first / last voxel -/
+def reflectV (N : Nat) (pos : Int) : Int :=
+  if pos < 0 then -pos else if (N : Int) ≤ pos then 2 * ((N : Int) - 1) - pos else pos
+
+open Pm.C14 in
+/-- **A padded tile shows the mirrored volume shifted by `start − left`** (one axis): as long as the margin does not
+exceed the extracted data (single reflection), voxel `q` of the tile is voxel `reflectV N (start − left + q)` of the
+volume — the addressed voxels and real neighbours inside, mirrored data beyond either edge.  This is the content
+hypothesis `cT` / `cU` of `tiled_eq_unsplit_padded`, for every tile and for the unsplit padded volume alike. -/
+theorem tile_axis_shows_reflectV (N start stop p q : Nat) (h1 : start < stop) (h2 : stop ≤ N)
+    (hq : q < (tileAxis N start stop p).extent)
+    (hsingle : ((p + p % 2) / 2 : Nat) ≤ (tileAxis N start stop p).arrStop - (tileAxis N start stop p).arrStart - 1) :
+    ((tileAxis N start stop p).src q : Int) = reflectV N ((start : Int) - ((p + p % 2) / 2 : Nat) + q) := by
+  have hf := tileAxis_fields N start stop p (by omega) h2
+  simp only at hf
+  obtain ⟨f1, f2, f3, f4, f5, f6, f7, f8, f9, f10⟩ := hf
+  have hext : (tileAxis N start stop p).extent
+      = (tileAxis N start stop p).padLo + ((tileAxis N start stop p).arrStop - (tileAxis N start stop p).arrStart)
+        + (tileAxis N start stop p).padHi := rfl
+  unfold reflectV
+  split
+  · rename_i hneg
+    exact tileAxis_src_mirror_lo N start stop p q h1 h2 _ rfl hneg (by omega)
+  · split
+    · rename_i hge
+      exact tileAxis_src_mirror_hi N start stop p q h1 h2 _ rfl hge hq (by omega)
+    · exact tileAxis_src_real N start stop p q h1 h2 _ rfl ⟨by omega, by omega⟩ hq
+
+/-- one axis of a tile request: volume extent, slice, requested padding -/
+structure AxSpec where
+  N : Nat
+  start : Nat
+  stop : Nat
+  p : Nat
+
+open Pm.C14 in
+def AxSpec.ta (a : AxSpec) : TileAxis := tileAxis a.N a.start a.stop a.p
+def AxSpec.left (a : AxSpec) : Nat := (a.p + a.p % 2) / 2
+/-- well-formed slice whose margin stays within one reflection of the extracted data -/
+def AxSpec.Ok (a : AxSpec) : Prop :=
+  a.start < a.stop ∧ a.stop ≤ a.N ∧ a.left ≤ a.ta.arrStop - a.ta.arrStart - 1
+
+/-- source voxel of tile position `q`, all axes -/
+def tileSrc : List AxSpec → List Int → List Int
+  | a :: as, q :: qs => ((a.ta.src q.toNat : Nat) : Int) :: tileSrc as qs
+  | _, _ => []
+def tileExt (axes : List AxSpec) : List Nat := axes.map (fun a => a.ta.extent)
+def tileOff (axes : List AxSpec) : List Int := axes.map (fun a => (a.start : Int) - a.left)
+def vRefl : List AxSpec → List Int → List Int
+  | a :: as, x :: xs => reflectV a.N x :: vRefl as xs
+  | _, _ => []
+
+/-- **n-D: a padded tile shows the mirrored volume shifted by the tile's (start − left).**  Every in-box position of the
+tile reads the voxel `reflectV(off + q)` on every axis. -/
+theorem tileSrc_eq_vRefl : ∀ (axes : List AxSpec) (q : List Int), (∀ a ∈ axes, a.Ok) → InBoxI (tileExt axes) q →
+    tileSrc axes q = vRefl axes (shiftL (tileOff axes) q)
+  | [], [], _, _ => rfl
+  | a :: as, q :: qs, hok, hq => by
+    obtain ⟨⟨hq0, hq1⟩, hqr⟩ := hq
+    have ha := hok a List.mem_cons_self
+    simp only [tileSrc, tileOff, List.map_cons, shiftL, vRefl]
+    have ih := tileSrc_eq_vRefl as qs (fun x hx => hok x (List.mem_cons_of_mem _ hx)) hqr
+    simp only [tileOff] at ih
+    rw [ih]
+    congr 1
+    have hqn : (q.toNat : Int) = q := Int.toNat_of_nonneg hq0
+    have := tile_axis_shows_reflectV a.N a.start a.stop a.p q.toNat ha.1 ha.2.1 (by
+      have : (q.toNat : Int) < (a.ta.extent : Int) := by rw [hqn]; exact hq1
+      exact_mod_cast this) ha.2.2
+    rw [hqn] at this
+    exact this
+  | [], _ :: _, _, hq => by cases hq
+  | _ :: _, [], _, hq => by cases hq
+
+/-- hence the content hypothesis of `tiled_eq_unsplit_padded`: a tile field that holds `vol[src(q)]` (what C14's
+correspondence observes on real tiles) equals the mirrored volume `V = vol ∘ reflect` shifted by the tile offset -/
+theorem tile_content_hypothesis {α} (vol T : List Int → α) (axes : List AxSpec) (hok : ∀ a ∈ axes, a.Ok)
+    (hT : ∀ q, InBoxI (tileExt axes) q → T q = vol (tileSrc axes q)) :
+    ∀ q, InBoxI (tileExt axes) q → T q = (fun pos => vol (vRefl axes pos)) (shiftL (tileOff axes) q) := by
+  intro q hq
+  rw [hT q hq, tileSrc_eq_vRefl axes q hok hq]
+
 example : SamePos [3, 2] [4, 0] [1, 2] [0, 0] [5, 2] := by simp [SamePos]
+example : (AxSpec.mk 10 0 4 4).Ok := by simp [AxSpec.Ok, AxSpec.left, AxSpec.ta, Pm.C14.tileAxis]
 example : defBeforeUse corrInputs corrInputs corrLoop = true := by decide
 
 end Pm.C02
